@@ -12,17 +12,22 @@
 (*   EXT3 : U+20DD combining enclosing circle (3 bytes, Extend)            *)
 (*   ZWJ  : U+200D zero width joiner (3 bytes, extends the cluster)        *)
 (*   VS   : U+FE0F variation selector-16 (3 bytes, Extend)                 *)
+(*   NBSP : U+00A0 no-break space (2 bytes; Unicode white space that is    *)
+(*          not a blank of the language)     FF : form feed (a control)    *)
+(*   HOPEN: the four bytes "<<a" LF, a heredoc introducer with its line    *)
+(*          end (one class, so that short class strings contain heredocs   *)
+(*          whose closing line "a" carries arbitrary neighbours)           *)
 (***************************************************************************)
 EXTENDS Integers, Sequences, FiniteSets, TLC
 
 LexClasses == {"a", "1", "SP", "TAB", "NL", "CR", "DQ", "BS", "DOLLAR", "PCT", "LBRACE", "RBRACE", "HASH", "SLASH", "STAR",
-               "LT", "MINUS", "DOT", "EQ", "NUL", "BAD", "MB", "COMB", "ASTRAL", "EXT3", "ZWJ", "VS"}
+               "LT", "MINUS", "DOT", "EQ", "NUL", "BAD", "MB", "COMB", "ASTRAL", "EXT3", "ZWJ", "VS", "NBSP", "FF", "HOPEN"}
 
-Width(c) == CASE c \in {"MB", "COMB"} -> 2 [] c \in {"EXT3", "ZWJ", "VS"} -> 3 [] c = "ASTRAL" -> 4 [] OTHER -> 1
+Width(c) == CASE c \in {"MB", "COMB", "NBSP"} -> 2 [] c \in {"EXT3", "ZWJ", "VS"} -> 3 [] c \in {"ASTRAL", "HOPEN"} -> 4 [] OTHER -> 1
 Extenders == {"COMB", "EXT3", "ZWJ", "VS"}
 
 \* control characters never join a cluster (UAX #29 GB4/GB5); an invalid byte is a cluster of its own
-Control == {"NL", "CR", "TAB", "NUL", "BAD"}
+Control == {"NL", "CR", "TAB", "NUL", "BAD", "FF"}
 
 Pos(b, l, c) == [byte |-> b, line |-> l, col |-> c]
 
@@ -36,7 +41,7 @@ AdvanceSt(p, st, prev, c) ==
     LET b == p.byte + Width(c)
         same == Pos(b, p.line, p.col)
         next == Pos(b, p.line, p.col + 1)
-    IN CASE c = "NL" -> [pos |-> Pos(b, p.line + 1, 1), st |-> "ctrl"]      \* also after CR: the pair is one newline
+    IN CASE c \in {"NL", "HOPEN"} -> [pos |-> Pos(b, p.line + 1, 1), st |-> "ctrl"]      \* also after CR: the pair is one newline
          [] c \in Control \ {"NL"} -> [pos |-> next, st |-> "ctrl"]
          [] c \in {"COMB", "EXT3", "VS"} ->
                 (IF st = "ctrl" THEN [pos |-> next, st |-> "other"]
